@@ -283,7 +283,8 @@ theorem reads_close (rest : Str) : Reads false ('}' :: rest) .nil rest := by
   | succ f =>
     have : scanSeg .normal ('}' :: rest) = ([], .cls, rest) := by
       rw [scanSeg_delim _ _ (by decide)]; rfl
-    simp [readNodes, skipWs, isWsC, startsWith, List.isPrefixOf, this, consItem]
+    have hn : nm Pitem [] = [] := rfl
+    simp [readNodes, skipWs, isWsC, startsWith, List.isPrefixOf, this, consItem, hn]
 
 theorem reads_item_semi (top : Bool) (H more : Str) (ns : RNodes) (rest : Str) (hH : hdrOk H = true)
     (h : Reads top more ns rest) : Reads top (H ++ ';' :: more) (consItem (nm Pitem H) ns) rest := by
